@@ -171,6 +171,13 @@ def _setup_mimetypes(cfg, toks):
         for i, t in enumerate(sorted(toks)):
             # every third registration is a NON-standard one (strict=False): the library asks the standard table only
             mimetypes.add_type(mimes[(i * 7 + 3) % len(mimes)], "." + t, strict=(i % 3 != 1))
+        # site-specific entries for suffixes no extension table knows: a key of the MIME table that contains capitals
+        # (exactly as spelt there), and type strings spelt in another case than the table's keys (no key: MIME types
+        # are compared as they come)
+        capital = [m for m in mimes if m != m.lower()]
+        odd = (capital[:2] + ["Text/Plain", "APPLICATION/PDF", "Application/Vnd.Ms-Excel"]) if capital else ["Text/Plain"]
+        for i, t in enumerate(t for t in sorted(toks) if t in UNKNOWN or t in MIME_ONLY):
+            mimetypes.add_type(odd[i % len(odd)], "." + t, strict=True)
 
 
 def _case(s, mode, rng):
@@ -284,6 +291,19 @@ def _worker(cfg, inp, out, wd):
                 events.append({"a": "Query", "path": path, "exts": exts, "hidden": ap["hidden"],
                                "tail": ap["tail"], "case": mode, "guess": guess, "sup": sup, "route": route,
                                "rf": None})
+    # path strings without any extension that the MIME database nevertheless types: RFC 2397 data: URLs
+    if cfg != "switch":
+        for k, mt in enumerate(["text/plain", "text/html", "application/pdf", "image/png", "application/x-unknown", "text/csv",
+                                "application/vnd.openxmlformats-officedocument.wordprocessingml.document", "TEXT/PLAIN"]):
+            for scheme in ("data:", "DATA:", "Data:"):
+                path = scheme + mt + (";base64,aGVsbG8=" if k % 2 else ",hello")
+                guess = mimetypes.guess_type(path.lower())[0] or ""
+                try:
+                    sup = bool(router.is_supported_file(path))
+                except Exception as e:
+                    sup = "Other:" + type(e).__name__
+                events.append({"a": "Query", "path": path, "exts": [], "hidden": False, "tail": "", "case": 0, "guess": guess,
+                               "sup": sup, "route": route_of(path), "rf": "n/a"})
     # phase 2: read_file dispatch, with every registered extractor replaced by a recording stub
     seen = []
 
